@@ -1962,7 +1962,9 @@ func (sa *Application) removeAllocationInternal(allocationKey string, releaseTyp
 		if resources.IsZero(sa.allocatedPlaceholder) {
 			sa.clearPlaceholderTimer()
 			sa.hasPlaceholderAlloc = false
-			if (sa.IsCompleting() && sa.stateTimer == nil) || sa.IsFailing() || sa.IsResuming() || sa.hasZeroAllocations() {
+			// a confirmed replacement adds the real allocation right after this removal: the application is not done
+			replaced := releaseType == si.TerminationType_PLACEHOLDER_REPLACED && alloc.GetRelease() != nil
+			if (sa.IsCompleting() && sa.stateTimer == nil && !replaced) || sa.IsFailing() || sa.IsResuming() || (sa.hasZeroAllocations() && !replaced) {
 				removeApp = true
 				event = CompleteApplication
 				if sa.IsFailing() {
